@@ -738,6 +738,105 @@ spec('C19', run=run_c19, search=search_with(run_c19, seeds=(7,)),
      assumptions=['f32/f64 storage'])
 
 
+# ------------------------------------------------------------------------------------------------
+# C04: zero cost
+
+
+STORAGE = [('f32', 'f32'), ('f64', 'f64'), ('i32', 'i32'), ('i64', 'i64'), ('u32', 'u32'), ('u64', 'u64'), ('isize', 'isize'),
+           ('bigint', 'uom::num::BigInt'), ('biguint', 'uom::num::BigUint'), ('rational64', 'uom::num::rational::Rational64'), ('bigrational', 'uom::num::BigRational'),
+           ('complex32', 'uom::num::complex::Complex32'), ('complex64', 'uom::num::complex::Complex64')]
+TRAITS = ['Copy', 'Clone', 'Eq', 'Ord', 'PartialEq', 'PartialOrd', 'core::hash::Hash', 'Default', 'Send', 'Sync', 'Unpin',
+          'std::panic::UnwindSafe', 'std::panic::RefUnwindSafe', 'core::fmt::Debug']
+
+
+def run_c04(ctx, tier=None, seed=None):
+    import asmcat
+    import probes
+    g = asmcat.generate(ctx)
+    if g is None:
+        return
+    pairs, folded = g
+    res = asmcat.build_and_compare(ctx, pairs)
+    if res is None:
+        return
+    n_bad = 0
+    samples = []
+    for ident, a, b, ok in res:
+        if len(samples) < 4 and a and len(a) > 2:
+            samples.append(dict(function=ident, impl=a[:6], reference=b[:6] if b else None))
+        if not ok:
+            n_bad += 1
+            ctx.problems.append(Problem('property-fails', 'machine code of impl_%s differs from the bare-number reference' % ident,
+                                        detail='impl: %s\nref:  %s' % (a, b), line='asm pair %s' % ident, failing_input=True,
+                                        cmd='cd /verif/harness/asm && cargo rustc --release --offline --lib -- --emit=asm', tag='asm'))
+    ctx.extra['asm_pairs'] = len(res)
+    ctx.extra['asm_pairs_identical'] = len(res) - n_bad
+    ctx.extra['evaluations'] = ctx.extra.get('evaluations', 0) + len(res)
+    ctx.extra['distinct_nontrivial'] = ctx.extra.get('distinct_nontrivial', 0) + len([1 for i, a, b, ok in res if a and len(a) > 2])
+    ctx.extra['samples'] = samples
+    # size / alignment / trait capabilities: the quantity must have exactly what its storage type has
+    if not cargo_build(ctx, 'wide', []):
+        return
+    rlib, deps = probes.find_rlib('wide')
+    pdir = os.path.join(VERIF, 'build', 'probes04')
+    os.makedirs(pdir, exist_ok=True)
+    path = os.path.join(pdir, 'layout.rs')
+    rows = []
+    with open(path, 'w', encoding='utf-8') as f:
+        f.write('#![allow(unused)]\n')
+        for name, ty in STORAGE:
+            q = 'uom::si::%s::Energy' % name
+            f.write('const _S_%s: () = assert!(core::mem::size_of::<%s>() == core::mem::size_of::<%s>() && core::mem::align_of::<%s>() == core::mem::align_of::<%s>());\n' % (name, q, ty, q, ty))
+            rows.append(('layout', name, None))
+        for tr in TRAITS:
+            t_id = re.sub(r'\W', '_', tr)
+            f.write('fn need_%s<T: %s>() {}\n' % (t_id, tr))
+            rows.append(None)
+            for name, ty in STORAGE:
+                f.write('fn q_%s_%s() { need_%s::<uom::si::%s::Energy>(); }\n' % (t_id, name, t_id, name))
+                rows.append(('q', tr, name))
+                f.write('fn v_%s_%s() { need_%s::<%s>(); }\n' % (t_id, name, t_id, ty))
+                rows.append(('v', tr, name))
+    bad, other = probes.rustc_rejects(path, rlib, deps)
+    if other:
+        ctx.problems.append(Problem('harness-broken', 'layout probe: rustc errors without location', '; '.join(other[:3])))
+    verdict = {}
+    n_layout = 0
+    for i, row in enumerate(rows):
+        if row is None:
+            continue
+        ok = (i + 2) not in bad
+        if row[0] == 'layout':
+            n_layout += 1
+            if not ok:
+                ctx.problems.append(Problem('property-fails', 'size/alignment of a quantity differs from its storage type %s' % row[1], line='layout %s' % row[1],
+                                            failing_input=True, cmd='rustc ' + path, tag='layout'))
+        else:
+            verdict[row] = ok
+            if not ok and bad.get(i + 2) not in ('E0277',):
+                ctx.problems.append(Problem('harness-broken', 'trait probe %s failed with %s (not an unsatisfied bound)' % (row, bad.get(i + 2))))
+    n_tr = 0
+    for tr in TRAITS:
+        for name, ty in STORAGE:
+            n_tr += 1
+            if verdict.get(('q', tr, name)) != verdict.get(('v', tr, name)):
+                ctx.problems.append(Problem('property-fails', 'Quantity<_, _, %s>: %s is %s but %s: %s is %s' % (
+                    name, tr, verdict.get(('q', tr, name)), ty, tr, verdict.get(('v', tr, name))), line='trait %s %s' % (tr, name),
+                    failing_input=True, cmd='rustc ' + path, tag='traits'))
+    ctx.extra['layout_assertions'] = n_layout
+    ctx.extra['trait_capability_pairs'] = n_tr
+    ctx.extra['evaluations'] += n_layout + n_tr
+
+
+spec('C04', run=run_c04, search=None,
+     rule='asm catalogue: new/get of 13 units (identity, multiplicative, affine; both branches) × 7 storage/base-unit combinations, + − * / < == >= neg on same-base and mixed-base '
+          'operands in 8 base-unit pairs, by-value quantity arguments (call ABI): optimised machine code of the quantity-level function vs the bare-number reference generated from the '
+          'Lean model’s folded normal form (constants as bit patterns), compared instruction by instruction after resolving constant-pool labels; size/align const assertions and '
+          '14 trait capabilities × 13 storage types compared between Quantity and the bare storage type via rustc; non-trivial: functions with at least one instruction besides ret',
+     trusted_base=['LLVM code generation and the platform ABI are observed, not modelled (why the claim is partial)', 'x86-64 release profile of this toolchain'],
+     assumptions=['the reference functions are trusted to be what “the same expression on bare numbers” means; they are generated, not hand-written'])
+
+
 def replay(ctx, spec_, path):
     with open(path, encoding='utf-8') as f:
         body = json.load(f)
